@@ -246,6 +246,11 @@ def analyze(kit):
         spec = env.action_spec
         amin, amax = int(np.asarray(spec.minimum)), int(np.asarray(spec.maximum))
         base = [n, V]
+        # C01: the real action spec against the model's (maximum = num_customers: every in-spec value is a node / mask column)
+        gv = il(spec.generate_value())
+        calls.append(("multi_cvrp_spec_io", base + gv))
+        metas.append(("spec", dict(cfg=label, n=n, V=V, spec_min=amin, spec_max=amax, shape=list(spec.shape), dtype=str(np.dtype(spec.dtype)),
+                                   generate_value=gv, mask_columns=int(env.observation_spec["action_mask"].shape[1])), None, None))
 
         def submit(items, tag):
             """items: [(St, raw state, [joint actions])]; every (state, action) through the real dense and sparse env and the model"""
@@ -329,7 +334,7 @@ def analyze(kit):
                     a = []
                     for v in range(c.V):
                         if uni and kit.rng.random() < 0.35:
-                            a.append(int(kit.rng.integers(0, c.n + 2)))
+                            a.append(int(kit.rng.integers(amin, amax + 1)))
                         else:
                             a.append(int(kit.rng.choice(np.where(c.mask[v])[0])))
                     return a
@@ -529,8 +534,8 @@ def analyze(kit):
                 gk = got[k * W:(k + 1) * W]
                 if m["tag"] == "episode":
                     replay_rewards.setdefault((m["cfg"], m["sparse"]), []).append(join(*e[offs["reward"][0]:offs["reward"][0] + 2]))
-                inspec = all(0 <= x <= n + 1 for x in a)
-                inrange = all(0 <= x <= n for x in a)
+                inrange = all(0 <= x <= n for x in a)        # = in-spec (action_spec maximum = num_customers)
+                inspec = inrange
                 legal = [c.legal(v, a[v]) for v in range(V)]
                 key = (m["cfg"],) + c.key() + (tuple(a), m["sparse"])
                 at_limit = int(s2.step_count) > 2 * n
@@ -566,7 +571,7 @@ def analyze(kit):
                 if int(ts2.step_type) not in (1, 2) or float(ts2.discount) != (1.0 if int(ts2.step_type) == 1 else 0.0):
                     kit.fail(["C03"], "step returned neither MID/discount 1 nor LAST/discount 0", dict(cfg=m["cfg"], op="protocol"),
                              dict(m, action=a, step_type=int(ts2.step_type), discount=float(ts2.discount), seed=kit.seed))
-                res["C09"].count("steps:%s" % ("in-range" if inrange else "in-spec-n+1" if inspec else "out-of-spec"))
+                res["C09"].count("steps:%s" % ("in-spec" if inrange else "out-of-spec-probe:n+1" if all(0 <= x <= n + 1 for x in a) else "out-of-spec-probe:other"))
                 if inrange and not all(legal):
                     res["C05"].evaluations += 1
                     res["C05"].distinct.add(key)
@@ -592,19 +597,8 @@ def analyze(kit):
                             kit.fail(["C04"], "mask entry disagrees with the environment's reaction / the rules", dict(cfg=m["cfg"], op="mask-vs-reaction"),
                                      dict(m, action=a, vehicle=v, state=c.brief(), mask=il(c.mask[v]), accepted=went, legal=c.legal(v, av), seed=kit.seed))
                     elif av == n + 1:
-                        # the action spec admits num_customers+1: one more value than there are nodes / mask columns
-                        res["C01"].evaluations += 1
-                        res["C01"].count("in-spec-action==num_customers+1")
-                        phantom = int(s2.vehicles.positions[v]) == n + 1
-                        if phantom:
-                            res["C01"].count("in-spec-action==num_customers+1:phantom-node-visit")
-                            kit.fail(["C01", "C04"], "action_spec admits node index num_customers+1 (docs: [0, num_customers]; the mask has no column for it): "
-                                     "step executes it as a visit to a node that does not exist - position = num_customers+1, the vehicle pays the demand "
-                                     "of customer num_customers (clamped gather) but that customer's demand is NOT cleared (dropped scatter), so it can be "
-                                     "charged again, also by another vehicle in the same step (n and n+1 are not recognised as the same customer)",
-                                     dict(cfg=m["cfg"], op="action-spec-max"),
-                                     dict(m, action=a, vehicle=v, state=c.brief(), positions_after=il(s2.vehicles.positions), capacities_after=il(s2.vehicles.capacities),
-                                          demands_after=il(s2.nodes.demands), spec_max=n + 1, seed=kit.seed))
+                        # OUT-of-spec probe (the spec maximum is num_customers): model vs implementation only, no property judged
+                        res["C09"].count("out-of-spec-probe:n+1:%s" % ("phantom-node-visit" if int(s2.vehicles.positions[v]) == n + 1 else "sent-to-depot"))
                 if bad:
                     pids = {"C09"}
                     if "action_mask" in bad:
@@ -622,6 +616,18 @@ def analyze(kit):
                     kit.fail(sorted(pids), "model and implementation disagree on step (fields %s)" % ",".join(bad),
                              dict(cfg=m["cfg"], op="corr-step", fields=",".join(bad)),
                              dict(m, action=a, state=c.brief(), model_out=gk[:60], impl=e[:60], seed=kit.seed))
+        elif kind == "spec":
+            res["C01"].evaluations += 1
+            res["C01"].distinct.add((m["cfg"], "action-spec"))
+            res["C01"].count("action-spec-compared-with-model")
+            if (m["spec_max"] != got[0] or m["spec_max"] != m["n"] or m["spec_min"] != 0 or m["shape"] != [m["V"]] or m["dtype"] != "int16"
+                    or m["mask_columns"] != got[0] + 1):
+                kit.fail(["C01", "C04"], "action_spec is not BoundedArray(shape (num_vehicles,), int16, 0, num_customers): an in-spec value would not be a node "
+                         "0..num_customers / a mask column (num_customers+1 is executed as a visit to a node that does not exist: clamped gathers, dropped scatter)",
+                         dict(op="action-spec-max"), dict(m, model_max=got[0], seed=kit.seed))
+            if got[1] != 1:
+                kit.fail(["C01"], "action_spec.generate_value() is not an in-spec joint action (verified in_spec_b)", dict(cfg=m["cfg"], op="generate-value"),
+                         dict(m, seed=kit.seed))
         elif kind == "rules":
             c, acts, raw = extra
             n, V = m["n"], m["V"]
@@ -760,12 +766,10 @@ def analyze(kit):
                         kit.fail(["C08"], "episode ending on the step limit (step 2*num_customers): dense and sparse returns differ on the same legal trajectory; "
                                  "the limit reward is worst_case_REMAINING_reward only, so the sparse return forgets everything already driven "
                                  "(it is 0 - the best possible return - when all customers are served by then, e.g. a tour completed exactly on the last step) "
-                                 "and the dense return drops the last leg", dict(cfg=label, op="limit-reward", kind=kindk),
-                                 dict(ep["meta"], kind=kindk, dense=dense / scale, sparse_ret=sparse / scale, objective=obj / scale, steps=ep["L"],
+                                 "and the dense return drops the last leg", dict(op="limit-reward"),
+                                 dict(ep["meta"], cfg=label, kind=kindk, dense=dense / scale, sparse_ret=sparse / scale, objective=obj / scale, steps=ep["L"],
                                       actions=[a for (_, _, a, _, _) in ep["steps"]], reset_key=il(ep["key"]), seed=kit.seed))
         elif kind == "rne":
-            if exp is None:
-                continue
             res["C09"].evaluations += 1
             if got != exp:
                 badx = [(x, g, e) for x, g, e in zip(args, got, exp) if g != e][:3]
